@@ -32,20 +32,21 @@ pub fn run(args: &[String]) -> i32 {
     let (mut records, mut restarts) = (0u64, 0u64);
     for (n, rec) in read_records().enumerate() {
         records += 1;
-        let path = dir.join(format!("ren_{}_{}.er", std::process::id(), n));
         let src = rec["src"].as_str().unwrap_or("").to_string();
         let new_name = rec["new"].as_str().unwrap_or("zz9").to_string();
         let queries = rec["queries"].as_array().cloned().unwrap_or_default();
-        if std::fs::write(&path, &src).is_err() {
-            eprintln!("cannot write {}", path.display());
-            return 2;
-        }
-        let uri = Url::from_file_path(&path).unwrap();
+        let mut paths = vec![];
         let res = guarded(|| {
-            client.notify_open(path.to_str().unwrap()).map_err(|e| e.to_string())?;
-            client.wait_diagnostics().map_err(|e| e.to_string())?;
             let mut answers = vec![];
-            for q in queries.iter() {
+            // one freshly opened and analysed copy of the document per request: answering a rename request
+            // changes the server's own view of the file
+            for (k, q) in queries.iter().enumerate() {
+                let path = dir.join(format!("ren_{}_{}_{}.er", std::process::id(), n, k));
+                std::fs::write(&path, &src).map_err(|e| e.to_string())?;
+                paths.push(path.clone());
+                let uri = Url::from_file_path(&path).unwrap();
+                client.notify_open(path.to_str().unwrap()).map_err(|e| e.to_string())?;
+                client.wait_diagnostics().map_err(|e| e.to_string())?;
                 let (l, c) = (q[0].as_u64().unwrap_or(0) as u32, q[1].as_u64().unwrap_or(0) as u32);
                 let edit = client.request_rename(uri.clone(), l, c, &new_name).map_err(|e| e.to_string())?;
                 match edit {
@@ -65,11 +66,13 @@ pub fn run(args: &[String]) -> i32 {
                         answers.push(json!({"q": q, "edits": mine, "other_files": other}));
                     }
                 }
+                let _ = client.notify_close(uri);
             }
             Ok::<Vec<Value>, String>(answers)
         });
-        let _ = client.notify_close(uri.clone());
-        let _ = std::fs::remove_file(&path);
+        for p in paths.iter() {
+            let _ = std::fs::remove_file(p);
+        }
         match res {
             Ok(Ok(a)) => out.emit(&json!({"i": n, "answers": a})),
             Ok(Err(e)) => out.emit(&json!({"i": n, "error": e})),
